@@ -24,6 +24,9 @@ struct TreeGen<'t, 's> {
     stats: &'s mut Stats,
     serial: u32,
     nodes: u32,
+    /// function bodies generated so far (a tree may hold the same
+    /// Arc<FunctionData> in two Function statements)
+    bodies: Vec<Arc<FunctionData>>,
 }
 
 const BIN_OPS: [BinaryOperator; 13] = [
@@ -374,16 +377,23 @@ impl<'t, 's> TreeGen<'t, 's> {
             }),
             17 => {
                 let name = self.var_name();
+                if !self.bodies.is_empty() && self.t.chance(1, 4) {
+                    self.stats.inc("probe.function_body_shared_by_two_statements");
+                    let i = self.t.draw(self.bodies.len() as u32) as usize;
+                    return Statement::Function(Function {
+                        name,
+                        data: Arc::clone(&self.bodies[i]),
+                    });
+                }
                 let n = 1 + self.t.weighted(&[3, 3, 2, 1]);
                 if n >= 2 {
                     self.stats.inc("probe.function_with_several_params");
                 }
                 let params = (0..n).map(|_| self.var_name()).collect();
                 let body = self.block(depth + 1);
-                Statement::Function(Function {
-                    name,
-                    data: Arc::new(FunctionData { params, body }),
-                })
+                let data = Arc::new(FunctionData { params, body });
+                self.bodies.push(Arc::clone(&data));
+                Statement::Function(Function { name, data })
             }
             _ => Statement::FunctionCall(self.call(1)),
         }
@@ -709,6 +719,46 @@ struct Log {
     /// callbacks delivered after the injected failure
     after_failure: usize,
     failed: bool,
+    failed_epoch: u32,
+    /// number of events delivered by the first of two walks
+    first_walk_len: Option<usize>,
+}
+
+thread_local! {
+    /// 1 during a first walk, 2 during a second walk with the same runner
+    static WALK_EPOCH: std::cell::Cell<u32> = std::cell::Cell::new(1);
+}
+
+impl From<u32> for Trace {
+    fn from(k: u32) -> Self {
+        Trace(vec![k])
+    }
+}
+
+/// Like Trace, but the default is a visible marker: the folded value shows
+/// where a fold started from the default.
+#[derive(Clone, Debug, PartialEq)]
+pub struct Marked(Vec<u32>);
+
+const MARK: u32 = u32::MAX;
+
+impl Default for Marked {
+    fn default() -> Self {
+        Marked(vec![MARK])
+    }
+}
+
+impl From<u32> for Marked {
+    fn from(k: u32) -> Self {
+        Marked(vec![k])
+    }
+}
+
+impl Combine for Marked {
+    fn combine(mut self, other: Self) -> Self {
+        self.0.extend(other.0);
+        self
+    }
 }
 
 impl Log {
@@ -719,22 +769,29 @@ impl Log {
             nonce,
             after_failure: 0,
             failed: false,
+            failed_epoch: 0,
+            first_walk_len: None,
         }
     }
-    fn cb(&mut self, ev: String) -> Result<Trace, Injected> {
-        if self.failed {
+    fn cb<T: From<u32>>(&mut self, ev: String) -> Result<T, Injected> {
+        let epoch = WALK_EPOCH.with(|e| e.get());
+        if self.failed && self.failed_epoch == epoch {
             self.after_failure += 1;
+        }
+        if epoch == 2 && self.first_walk_len.is_none() {
+            self.first_walk_len = Some(self.events.len());
         }
         let k = self.events.len();
         self.events.push(ev);
         if self.fail_at == Some(k) {
             self.failed = true;
+            self.failed_epoch = epoch;
             Err(Injected {
                 k,
                 nonce: self.nonce,
             })
         } else {
-            Ok(Trace(vec![k as u32]))
+            Ok(T::from(k as u32))
         }
     }
 }
@@ -802,14 +859,14 @@ impl VisitExpr for LeafRecorder {
 macro_rules! dispatch_callbacks {
     () => {
     fn visit_assignment_lhs(&mut self, a: &AssignmentLHS) -> visit::Result<Self> {
-        let here = self.log.cb("enter:lhs".into())?;
+        let here: Trace = self.log.cb("enter:lhs".into())?;
         Ok(here.combine(match a {
             AssignmentLHS::Identifier(i) => self.visit_identifier(i),
             AssignmentLHS::ArraySubscript(a) => self.visit_array_subscript(a),
         }?))
     }
     fn visit_assignment_rhs(&mut self, a: &AssignmentRHS) -> visit::Result<Self> {
-        let here = self.log.cb("enter:rhs".into())?;
+        let here: Trace = self.log.cb("enter:rhs".into())?;
         Ok(here.combine(match a {
             AssignmentRHS::ExpressionList(e) => self.visit_expression_list(e),
         }?))
@@ -818,7 +875,7 @@ macro_rules! dispatch_callbacks {
         &mut self,
         p: &PoeticNumberAssignmentRHS,
     ) -> visit::Result<Self> {
-        let here = self.log.cb("enter:pnrhs".into())?;
+        let here: Trace = self.log.cb("enter:pnrhs".into())?;
         Ok(here.combine(match p {
             PoeticNumberAssignmentRHS::Expression(e) => self.visit_expression(e),
             PoeticNumberAssignmentRHS::PoeticNumberLiteral(p) => {
@@ -827,14 +884,14 @@ macro_rules! dispatch_callbacks {
         }?))
     }
     fn visit_array_push_rhs(&mut self, a: &ArrayPushRHS) -> visit::Result<Self> {
-        let here = self.log.cb("enter:pushrhs".into())?;
+        let here: Trace = self.log.cb("enter:pushrhs".into())?;
         Ok(here.combine(match a {
             ArrayPushRHS::ExpressionList(e) => self.visit_expression_list(e),
             ArrayPushRHS::PoeticNumberLiteral(p) => self.visit_poetic_number_literal(p),
         }?))
     }
     fn visit_expression(&mut self, e: &Expression) -> visit::Result<Self> {
-        let here = self.log.cb("enter:expr".into())?;
+        let here: Trace = self.log.cb("enter:expr".into())?;
         Ok(here.combine(match e {
             Expression::PrimaryExpression(e) => self.visit_primary_expression(e),
             Expression::BinaryExpression(e) => self.visit_binary_expression(e),
@@ -842,7 +899,7 @@ macro_rules! dispatch_callbacks {
         }?))
     }
     fn visit_primary_expression(&mut self, e: &PrimaryExpression) -> visit::Result<Self> {
-        let here = self.log.cb("enter:primary".into())?;
+        let here: Trace = self.log.cb("enter:primary".into())?;
         Ok(here.combine(match e {
             PrimaryExpression::Literal(e) => self.visit_literal_expression(e),
             PrimaryExpression::Identifier(i) => self.visit_identifier(i),
@@ -852,14 +909,14 @@ macro_rules! dispatch_callbacks {
         }?))
     }
     fn visit_identifier(&mut self, i: &WithRange<Identifier>) -> visit::Result<Self> {
-        let here = self.log.cb("enter:ident".into())?;
+        let here: Trace = self.log.cb("enter:ident".into())?;
         Ok(here.combine(match &i.0 {
             Identifier::VariableName(n) => self.visit_variable_name(WithRange(n, i.1.clone())),
             Identifier::Pronoun => self.visit_pronoun(i.1.clone()),
         }?))
     }
     fn visit_variable_name(&mut self, n: WithRange<&VariableName>) -> visit::Result<Self> {
-        let here = self.log.cb("enter:varname".into())?;
+        let here: Trace = self.log.cb("enter:varname".into())?;
         Ok(here.combine(match n.0 {
             VariableName::Simple(x) => self.visit_simple_identifier(WithRange(x, n.1.clone())),
             VariableName::Common(x) => self.visit_common_identifier(WithRange(x, n.1.clone())),
@@ -867,6 +924,21 @@ macro_rules! dispatch_callbacks {
         }?))
     }
     };
+}
+
+/// Recorder E: leaf callbacks only, output with a visible default marker;
+/// used for two consecutive walks with the same runner instance.
+struct MarkedRecorder {
+    log: Log,
+}
+
+impl Visit for MarkedRecorder {
+    type Output = Marked;
+    type Error = Injected;
+}
+
+impl VisitExpr for MarkedRecorder {
+    leaf_callbacks!();
 }
 
 /// Recorder B: leaf callbacks plus the pure dispatch methods, which log
@@ -905,18 +977,18 @@ impl VisitExpr for FullRecorder {
     dispatch_callbacks!();
 
     fn visit_poetic_number_literal(&mut self, p: &PoeticNumberLiteral) -> visit::Result<Self> {
-        let mut acc = self.log.cb("enter:poetic".into())?;
+        let mut acc: Trace = self.log.cb("enter:poetic".into())?;
         for e in &p.elems {
             acc = acc.combine(self.visit_poetic_number_literal_elem(e)?);
         }
         Ok(acc)
     }
     fn visit_array_pop_expr(&mut self, a: &ArrayPopExpr) -> visit::Result<Self> {
-        let here = self.log.cb("enter:arraypop".into())?;
+        let here: Trace = self.log.cb("enter:arraypop".into())?;
         Ok(here.combine(self.visit_primary_expression(&a.array)?))
     }
     fn visit_expression_list(&mut self, e: &ExpressionList) -> visit::Result<Self> {
-        let mut acc = self.log.cb("enter:list".into())?;
+        let mut acc: Trace = self.log.cb("enter:list".into())?;
         acc = acc.combine(self.visit_expression(&e.first)?);
         for x in &e.rest {
             acc = acc.combine(self.visit_expression(x)?);
@@ -924,26 +996,26 @@ impl VisitExpr for FullRecorder {
         Ok(acc)
     }
     fn visit_binary_expression(&mut self, e: &BinaryExpression) -> visit::Result<Self> {
-        let here = self.log.cb("enter:binary".into())?;
+        let here: Trace = self.log.cb("enter:binary".into())?;
         Ok(here
             .combine(self.visit_expression(&e.lhs)?)
             .combine(self.visit_binary_operator(e.operator)?)
             .combine(self.visit_expression_list(&e.rhs)?))
     }
     fn visit_unary_expression(&mut self, e: &UnaryExpression) -> visit::Result<Self> {
-        let here = self.log.cb("enter:unary".into())?;
+        let here: Trace = self.log.cb("enter:unary".into())?;
         Ok(here
             .combine(self.visit_unary_operator(e.operator)?)
             .combine(self.visit_expression(&e.operand)?))
     }
     fn visit_array_subscript(&mut self, a: &ArraySubscript) -> visit::Result<Self> {
-        let here = self.log.cb("enter:subscript".into())?;
+        let here: Trace = self.log.cb("enter:subscript".into())?;
         Ok(here
             .combine(self.visit_primary_expression(&a.array)?)
             .combine(self.visit_primary_expression(&a.subscript)?))
     }
     fn visit_function_call(&mut self, f: &FunctionCall) -> visit::Result<Self> {
-        let mut acc = self.log.cb("enter:call".into())?;
+        let mut acc: Trace = self.log.cb("enter:call".into())?;
         acc = acc.combine(self.visit_variable_name(f.name.as_ref())?);
         for a in &f.args {
             acc = acc.combine(self.visit_expression(a)?);
@@ -1080,6 +1152,89 @@ fn walk(rec: Recorder, program: &Program, fail_at: Option<usize>, nonce: u64) ->
                 after_failure: r.log.after_failure,
                 result,
             }
+        }
+    }
+}
+
+struct TwoWalks {
+    first: Vec<String>,
+    second: Vec<String>,
+    after_failure: usize,
+    result1: Result<Result<Marked, Injected>, String>,
+    result2: Result<Result<Marked, Injected>, String>,
+}
+
+/// Two consecutive walks of the same tree with the same runner instance (as
+/// a linter re-running its passes does); the first may fail at `fail_at`,
+/// the second never fails.
+fn walk_twice(program: &Program, fail_at: Option<usize>, nonce: u64) -> TwoWalks {
+    crate::driver::heartbeat();
+    let mut runner = ExprVisitorRunner::with_inner(MarkedRecorder {
+        log: Log::new(fail_at, nonce),
+    });
+    WALK_EPOCH.with(|e| e.set(1));
+    let result1 = guarded(|| runner.visit_program(program));
+    WALK_EPOCH.with(|e| e.set(2));
+    let result2 = guarded(|| runner.visit_program(program));
+    WALK_EPOCH.with(|e| e.set(1));
+    let log = runner.inner().log;
+    let split = log.first_walk_len.unwrap_or(log.events.len());
+    TwoWalks {
+        first: log.events[..split].to_vec(),
+        second: log.events[split..].to_vec(),
+        after_failure: log.after_failure,
+        result1,
+        result2,
+    }
+}
+
+fn judge_marked(
+    expected: &[Vec<String>],
+    events: &[String],
+    offset: usize,
+    result: &Result<Result<Marked, Injected>, String>,
+    which: &str,
+) -> Option<(&'static str, String)> {
+    let r = match result {
+        Err(msg) => return Some(("C16.Q0-panic", format!("{} walk panicked: {}", which, msg))),
+        Ok(r) => r,
+    };
+    if !expected.iter().any(|e| e[..] == *events) {
+        return Some((
+            "C16.Q1-every-node-once-in-order",
+            format!(
+                "{} walk with the same runner: {} callbacks delivered, the reference traversal has {}",
+                which,
+                events.len(),
+                expected[0].len()
+            ),
+        ));
+    }
+    match r {
+        Err(e) => Some((
+            "C16.Q4-error-returned-unchanged",
+            format!("{} walk: no callback failed but the walk returned Err({:?})", which, e),
+        )),
+        Ok(m) => {
+            let plain: Vec<u32> = m.0.iter().copied().filter(|x| *x != MARK).collect();
+            let want: Vec<u32> = (offset as u32..(offset + events.len()) as u32).collect();
+            if plain != want {
+                return Some((
+                    "C16.Q2-left-to-right-fold",
+                    format!("{} walk: folded result (defaults removed) is not the callbacks in order", which),
+                ));
+            }
+            if m.0.first() != Some(&MARK) {
+                return Some((
+                    "C16.Q5-fold-starts-from-default",
+                    format!(
+                        "{} walk: the folded result of the whole walk does not start from the default (Output::default() is a visible marker; result begins with {:?})",
+                        which,
+                        m.0.first()
+                    ),
+                ));
+            }
+            None
         }
     }
 }
@@ -1262,6 +1417,7 @@ impl Property for C16 {
                 stats,
                 serial: 0,
                 nodes: 0,
+                bodies: Vec::new(),
             };
             g.program()
         };
@@ -1338,6 +1494,61 @@ impl Property for C16 {
                         ]),
                         log_hash: h,
                         tags: vec![format!("recorder:{:?}", rec)],
+                    });
+                    return res;
+                }
+            }
+        }
+        // two consecutive walks with one runner instance; output type whose
+        // default is a visible marker
+        {
+            let n = leaf_expected[0].len();
+            let mut fails: Vec<Option<usize>> = vec![None];
+            if n > 0 {
+                fails.push(Some(tape.draw(n as u32) as usize));
+                fails.push(Some(n - 1));
+            }
+            for fail_at in fails {
+                let w = walk_twice(&program, fail_at, nonce);
+                res.executions += 2;
+                res.steps += (w.first.len() + w.second.len()) as u64;
+                stats.inc("count.second_walks_with_the_same_runner");
+                let mut verdict: Option<(&'static str, String)> = None;
+                match fail_at {
+                    None => verdict = judge_marked(&leaf_expected, &w.first, 0, &w.result1, "first"),
+                    Some(k) => {
+                        if w.after_failure > 0 || w.first.len() != k + 1 {
+                            verdict = Some((
+                                "C16.Q3-stop-at-first-error",
+                                format!("first of two walks: callback #{} failed but {} callbacks were delivered", k, w.first.len()),
+                            ));
+                        }
+                    }
+                }
+                if verdict.is_none() {
+                    verdict = judge_marked(&leaf_expected, &w.second, w.first.len(), &w.result2, "second");
+                }
+                let mut h = hash_combine(0xE2, fail_at.map_or(u64::MAX, |k| k as u64));
+                for e in w.first.iter().chain(w.second.iter()) {
+                    h = hash_combine(h, hash_bytes(e.as_bytes()));
+                }
+                res.digest = hash_combine(res.digest, h);
+                if let Some((rule, detail)) = verdict {
+                    res.violation = Some(Violation {
+                        rule: rule.to_string(),
+                        detail,
+                        render: J::obj(vec![
+                            ("tree", J::s(format!("{:#?}", program))),
+                            ("recorder", J::s("leaf callbacks, default is a visible marker; two walks with one runner")),
+                            ("failing_callback_index_in_first_walk", fail_at.map_or(J::Null, |k| J::U(k as u64))),
+                            ("first_walk_callbacks", J::A(w.first.iter().map(|e| J::s(e.clone())).collect())),
+                            ("second_walk_callbacks", J::A(w.second.iter().map(|e| J::s(e.clone())).collect())),
+                            ("reference_traversal", J::A(leaf_expected[0].iter().map(|e| J::s(e.clone())).collect())),
+                            ("first_result", J::s(format!("{:?}", w.result1))),
+                            ("second_result", J::s(format!("{:?}", w.result2))),
+                        ]),
+                        log_hash: h,
+                        tags: vec!["recorder:MarkedTwice".into()],
                     });
                     return res;
                 }
